@@ -150,7 +150,7 @@ Proof.
 Qed.
 
 Lemma del_all_nil {A} ids : @del_all A ids [] = [].
-Proof. induction ids as [|i ids IH]; simpl; [reflexivity|]. unfold del_all in IH. rewrite IH. apply delete_at_nil. Qed.
+Proof. unfold del_all. induction ids as [|i ids IH]; simpl; [reflexivity|]. rewrite IH. apply delete_at_nil. Qed.
 
 Lemma del_all_prefix {A} (m : list bool) (p c : list A) i :
   del_all (ids_of_mask (length p + i) m) (p ++ c) = p ++ del_all (ids_of_mask i m) c.
@@ -163,7 +163,7 @@ Qed.
 Lemma del_all_mask {A} (m : list bool) (c : list A) : del_all (ids_of_mask 0 m) c = drop_mask m c.
 Proof.
   revert c; induction m as [|b m IH]; intros c; simpl.
-  - now rewrite drop_mask_nil.
+  - destruct c; reflexivity.
   - destruct c as [|x c]; [now rewrite del_all_nil|].
     pose proof (del_all_prefix m [x] c 0) as E. simpl in E.
     destruct b; simpl; rewrite E, IH; reflexivity.
@@ -193,12 +193,12 @@ Lemma ids_mirror (m : list bool) :
   map (fun j => length m - 1 - j) (ids_of_mask 0 m) = rev (ids_of_mask 0 (rev m)).
 Proof.
   induction m as [|b m IH]; [reflexivity|].
-  cbn [rev]. rewrite ids_app, rev_app_distr, rev_length. cbn [ids_of_mask length plus].
-  rewrite <- IH. rewrite (ids_shift 0 m), map_map.
-  assert (E : map (fun x => S (length m) - 1 - S x) (ids_of_mask 0 m)
+  assert (E : map (fun j => length (b :: m) - 1 - j) (ids_of_mask 1 m)
               = map (fun j => length m - 1 - j) (ids_of_mask 0 m)).
-  { apply map_ext. intros; lia. }
-  destruct b; cbn [rev app map]; rewrite E; [f_equal; lia|reflexivity].
+  { rewrite (ids_shift 0 m), map_map. apply map_ext. intros; simpl; lia. }
+  cbn [rev]. rewrite ids_app, rev_app_distr, rev_length, <- IH. cbn [plus].
+  destruct b; cbn [ids_of_mask rev app map]; rewrite E; [|reflexivity].
+  f_equal. simpl. lia.
 Qed.
 
 Lemma delete_ids_mirror (m : list bool) (c : circ) : length m = length c ->
